@@ -23,7 +23,7 @@ LEVEL_RULE = (
 EXHAUSTIVE_SUBDOMAINS = []
 ASSUMPTIONS = ["pulse samples carry the amplitude plus a small share of the noise; low samples carry noise only", "regime R2 (noise between 0.2 x and 0.316 x the weakest pulse, i.e. 10-13.5 dB SNR) was the recorded finding eof-threshold-below-noise until fix b07124f; it is now judged as strictly as R1",
                "R1 = noise peak below the demodulator's own end-of-frame threshold (0.2 x strongest pulse of the frame)"]
-REQUIRED = ["r1_buffers", "r2_buffers", "df17", "df20", "df21", "df4", "df5", "df11", "offset_even", "offset_odd",
+REQUIRED = ["r1_buffers", "r2_buffers", "min_gap_after_short", "min_gap_after_long", "df17", "df20", "df21", "df4", "df5", "df11", "offset_even", "offset_odd",
             "corrupted_df17_rejected", "pure_noise", "multi_frame"]
 
 
@@ -132,6 +132,9 @@ def m_buffer(ctx, case):
             ctx.hit("offset_even" if f["start"] % 2 == 0 else "offset_odd")
     if len(exp) > 1:
         ctx.hit("multi_frame")
+    for a, b in zip(info, info[1:]):
+        if b["start"] - (a["start"] + 16 + 2 * a["n"]) <= 2 * a["n"] + 1:
+            ctx.hit("min_gap_after_short" if a["n"] == 56 else "min_gap_after_long")
     if any(g != g.upper() for g in got):
         ctx.violation("lower-case-output", observed=got, **short)
     ctx.nontrivial(("b", case["bseed"], tuple(exp)))
@@ -180,7 +183,8 @@ def mkcase(rng, regime, nframes=None, force_df=None):
                     x ^= 1 << p
             hx = "%028X" % x
             valid = False
-        frames.append({"hex": hx, "amp": amps[k], "gap": rng.choice((240, 250, 300, 500, rng.randint(240, 900))) + rng.randrange(2),
+        own = 2 * n   # samples of this frame: "separated by at least one frame length of noise" = at least its own length
+        frames.append({"hex": hx, "amp": amps[k], "gap": rng.choice((own, own + 1, own + 2, 240, 300, 500, rng.randint(own, 900))) + rng.randrange(2),
                        "valid": valid})
     return {"fam": fam, "L": L, "P": P, "lead": rng.choice((200, 201, 333, 400, rng.randint(200, 700))), "tail": 600 + rng.randrange(0, 300),
             "frames": frames, "regime": regime, "bseed": rng.getrandbits(40)}
